@@ -70,7 +70,7 @@ var _ uuid.UUID
 //@ spec pwf(p *partition) bool = p.index != nil && p.notificator != nil && wfShards(p.index) && wfStored(p.index)
 
 //@ func (*storage.partition).insertValue
-//@ props C02 C04 C11
+//@ props C02 C04 C11 C12
 //@ safety C12
 //@ ghost notified int = 0
 //@ ghost outcome interface{} = nil
@@ -80,6 +80,7 @@ var _ uuid.UUID
 //@ end
 //@ requires [wf] pwf(this)
 //@ requires [level] level >= 0 && level < 2147483648
+//@ ensures [C12 outcome-type] isnil(outcome) || implements(outcome, error)
 //@ ensures [notify-once] notified == 1
 //@ ensures [returns-nil] isnil(ret)
 //@ ensures [wf-kept] pwf(this)
@@ -89,7 +90,7 @@ var _ uuid.UUID
 //@ modifies *
 
 //@ func (*storage.partition).deleteValue
-//@ props C02 C04 C11
+//@ props C02 C04 C11 C12
 //@ safety C12
 //@ ghost notified int = 0
 //@ ghost outcome interface{} = nil
@@ -98,6 +99,7 @@ var _ uuid.UUID
 //@ set outcome = $arg2
 //@ end
 //@ requires [wf] pwf(this)
+//@ ensures [C12 outcome-type] isnil(outcome) || implements(outcome, error)
 //@ ensures [notify-once] notified == 1
 //@ ensures [returns-nil] isnil(ret)
 //@ ensures [wf-kept] pwf(this)
@@ -108,7 +110,7 @@ var _ uuid.UUID
 
 // update = replace the vector, merge metadata (new keys win, old keys are kept)
 //@ func (*storage.partition).updateValue
-//@ props C02 C04 C11
+//@ props C02 C04 C11 C12
 //@ safety C12
 //@ ghost notified int = 0
 //@ ghost outcome interface{} = nil
@@ -118,6 +120,7 @@ var _ uuid.UUID
 //@ end
 //@ requires [wf] pwf(this)
 //@ requires [own-map] metadata != nil ==> forall v *index.hnswVertex :: v.metadata != metadata
+//@ ensures [C12 outcome-type] isnil(outcome) || implements(outcome, error)
 //@ ensures [notify-once] notified == 1
 //@ ensures [returns-nil] isnil(ret)
 //@ ensures [wf-kept] pwf(this)
@@ -170,7 +173,7 @@ var _ uuid.UUID
 
 // batch insert: one notification carrying the per-id error map; ids outside the batch are untouched; every batch id is stored afterwards
 //@ func (*storage.partition).batchInsertValue
-//@ props C02 C04 C11
+//@ props C02 C04 C11 C12
 //@ safety C12
 //@ ghost notified int = 0
 //@ ghost outcome interface{} = nil
@@ -203,7 +206,7 @@ var _ uuid.UUID
 //@ invariant [live-origin] forall j uuid.UUID :: live(pix(this), j) && !old(live(pix(this), j)) ==> inBatch(items, j, rangeindex + 1)
 
 //@ func (*storage.partition).batchDeleteValue
-//@ props C02 C04 C11
+//@ props C02 C04 C11 C12
 //@ safety C12
 //@ ghost notified int = 0
 //@ ghost outcome interface{} = nil
@@ -232,7 +235,7 @@ var _ uuid.UUID
 //@ invariant [monotone] forall j uuid.UUID :: !old(live(pix(this), j)) ==> !live(pix(this), j)
 
 //@ func (*storage.partition).batchUpdateValue
-//@ props C02 C04 C11
+//@ props C02 C04 C11 C12
 //@ safety C12
 //@ ghost notified int = 0
 //@ ghost outcome interface{} = nil
@@ -573,7 +576,7 @@ var _ uuid.UUID
 
 // success is returned only for a value that came out of this proposal's own notification channel
 //@ func (*storage.partition).proposeAndWaitForCommit
-//@ props C11
+//@ props C11 C12
 //@ safety C12
 //@ ghost proposed int = 0
 //@ ghost notified int = 0
@@ -581,11 +584,17 @@ var _ uuid.UUID
 //@ set proposed = proposed + 1
 //@ end
 //@ at recv local:notifC
+//@ assume [protocol: the value notified for a single change is nil or an error, for a batch a partitionBatchResult - the apply functions' C12 outcome-type clauses; the channel is closed only by this call's own deferred Remove] $ok && (proposal.Type <= 2 ==> isnil($recv) || implements($recv, error)) && (proposal.Type >= 3 ==> istype($recv, partitionBatchResult))
 //@ set notified = notified + 1
 //@ end
+//@ at call proto.Marshal
+//@ requires [C12 wellformed-proposal] len(proposal.NotificationId) == 16 && wfChangeBody(this, proposal)
+//@ end
 //@ requires [wf] this.notificator != nil && this.notificator.chans != nil && this.raft != nil && proposal != nil && !isnil(ctx)
+//@ requires [C12 proposal-body] wfChangeBody(this, proposal)
 //@ ensures [success-only-after-notification] isnil(ret1) ==> notified == 1 && proposed == 1
 //@ ensures [timeout-is-error] notified == 0 ==> !isnil(ret1)
+//@ ensures [C12 result-type] isnil(ret1) ==> (old(proposal.Type) <= 2 ==> isnil(ret0) || implements(ret0, error)) && (old(proposal.Type) >= 3 ==> istype(ret0, partitionBatchResult))
 //@ modifies *
 
 //@ func (*storage.Dataset).checkDimension
@@ -601,17 +610,66 @@ var _ uuid.UUID
 //@ requires [partitions] this.meta != nil && this.meta.PartitionCount >= 1 && len(this.partitions) == this.meta.PartitionCount
 //@ ensures [owner] ret == this.partitions[uuidmod(id, this.meta.PartitionCount)] && uuidmod(id, this.meta.PartitionCount) < len(this.partitions)
 
-//@ func (*storage.partition).insert
-//@ props C11
+// ---------------------------------------------------------------------------------------------
+// C12 (poison clause): whatever a proposer hands to raft must be an entry that `process` applies without an error on
+// every replica, now and on every replay. wfChange is exactly what the apply path needs: 16-byte ids (notification id,
+// item id, every batch item id), vectors of the dataset's dimension wherever a vector is stored, non-negative levels.
+//@ spec dimOK(p *partition, n int) bool = n % 4294967296 == p.dataset.meta.Dimension
+//@ spec wfBatch(p *partition, items []*pb.BatchItem, withValue bool) bool = forall i int :: 0 <= i && i < len(items) ==> items[i] != nil && len(items[i].Id) == 16 && (withValue ==> dimOK(p, len(items[i].Value)))
+//@ spec wfChangeBody(p *partition, c *pb.PartitionChange) bool = (c.Type >= 0 && c.Type <= 2 ==> len(c.Id) == 16) && (c.Type >= 0 && c.Type <= 1 ==> dimOK(p, len(c.Value))) && (c.Type == 0 ==> c.Level >= 0) && (c.Type >= 3 && c.Type <= 4 ==> wfBatch(p, c.BatchItems, true)) && (c.Type == 5 ==> wfBatch(p, c.BatchItems, false)) && (c.Type == 3 ==> forall i int :: 0 <= i && i < len(c.BatchItems) ==> c.BatchItems[i].Level >= 0)
+//@ spec pready(p *partition) bool = p.notificator != nil && p.notificator.chans != nil && p.index != nil && p.dataset != nil && p.dataset.meta != nil
+
+// the level of a new item: floor of an exponential variate (float arithmetic is outside the contract language)
+//@ func (*index.Hnsw).RandomLevel
+//@ props C12
 //@ assume
+//@ trust float: RandomLevel() returns a value in [0, 2^31) (floor of -ln(U)*mult for U in [0,1), on amd64 an infinite variate converts to the minimum int and truncates to level 0)
+//@ ensures [range] 0 <= ret && ret < 2147483648
+//@ modifies nothing
+
+//@ func (*storage.partition).insert
+//@ props C11 C12
+//@ trust check lossless
+//@ requires [wf] pready(this) && !isnil(ctx)
+//@ requires [C12 dimension-checked] dimOK(this, len(value))
 //@ modifies *
 //@ func (*storage.partition).update
-//@ props C11
-//@ assume
+//@ props C11 C12
+//@ requires [wf] pready(this) && !isnil(ctx)
+//@ requires [C12 dimension-checked] dimOK(this, len(value))
 //@ modifies *
 //@ func (*storage.partition).remove
-//@ props C11
-//@ assume
+//@ props C11 C12
+//@ requires [wf] pready(this) && !isnil(ctx)
+//@ modifies *
+
+// validation of a batch before it is proposed: nil means every id parses and (withValue) every vector has the dimension
+//@ func (*storage.partition).validateBatchItems
+//@ props C12
+//@ requires [wf] this.dataset != nil && this.dataset.meta != nil
+//@ ensures [C12 validated] isnil(ret) ==> forall i int :: 0 <= i && i < len(items) ==> len(items[i].Id) == 16 && (withValue ==> dimOK(this, len(items[i].Value)))
+//@ modifies nothing
+//@ loop 1
+//@ invariant [prefix] forall i int :: 0 <= i && i <= rangeindex ==> len(items[i].Id) == 16 && (withValue ==> dimOK(this, len(items[i].Value)))
+
+//@ func (*storage.partition).batchInsert
+//@ props C12
+//@ trust check lossless
+//@ requires [wf] pready(this) && !isnil(ctx)
+//@ requires [items] forall i int :: 0 <= i && i < len(items) ==> items[i] != nil
+//@ modifies *
+//@ loop 1
+//@ invariant [validated] wfBatch(this, items, true) && pready(this)
+//@ invariant [levels] forall i int :: 0 <= i && i <= rangeindex ==> items[i].Level >= 0
+//@ func (*storage.partition).batchUpdate
+//@ props C12
+//@ requires [wf] pready(this) && !isnil(ctx)
+//@ requires [items] forall i int :: 0 <= i && i < len(items) ==> items[i] != nil
+//@ modifies *
+//@ func (*storage.partition).batchRemove
+//@ props C12
+//@ requires [wf] pready(this) && !isnil(ctx)
+//@ requires [items] forall i int :: 0 <= i && i < len(items) ==> items[i] != nil
 //@ modifies *
 
 //@ func iface:protobuf.DataManagerClient.Insert
